@@ -32,8 +32,8 @@ impl Check for IndCheck {
 	fn runs(&self, tier: Tier) -> u64 {
 		let n = modelled().len().max(1) as u64;
 		match tier {
-			Tier::Quick => n * 250,
-			Tier::Thorough => n * 8_000,
+			Tier::Quick => n * 1_500,
+			Tier::Thorough => n * 30_000,
 		}
 	}
 	fn generate(&self, root: &Rng, i: u64, tier: Tier) -> MCase {
